@@ -35,7 +35,9 @@ type c08Case struct {
 	Src  string `json:"src"`
 	Src2 string `json:"src2,omitempty"` // second file decorated with the same resolver instance
 	Dec  string `json:"dec"`            // goast-guess | goast-map | gotypes
-	Res  string `json:"res"`            // guess | simple | guess-map | gobuild-hints | gobuild-find
+	// Reuse (file pairs): "" fresh Restorer per file | "restorer" one Restorer for both files | "filerestorer" one FileRestorer for both
+	Reuse string `json:"reuse,omitempty"`
+	Res   string `json:"res"`            // guess | simple | guess-map | gobuild-hints | gobuild-find
 }
 
 var c08Decs = []string{"goast-guess", "goast-map", "gotypes"}
@@ -52,7 +54,7 @@ func init() {
 		Level: "model_checking",
 		Rule: "choice-tree exploration: every import-bearing template x <=k (quick 2, thorough 3 on small templates) insertions of {/*c*/, // c, newline, blank line, multi-line comment} into any gap (including both sides of the dot of qualified identifiers), gofmt-canonicalised and deduplicated, " +
 			"x decorator resolver {goast+guess, goast+map, gotypes over go/types Uses} x restorer resolver {guess, simple map, guess.WithMap, gobuild with hints, gobuild with a FindPackage hook} (only combinations that name every package correctly); " +
-			"plus every ordered pair of templates decorated by two decorators (own file sets) that share one goast resolver; oracle: bytes identical to the input (also when the same tree is printed a second time, by a Restorer whose FileSet already holds a file) whenever the plain (no import management) round trip of that input is, and re-decorating the output yields the same (name, path) sequence; " +
+			"plus every ordered pair of templates decorated by two decorators (own file sets) that share one goast resolver, restored by a fresh Restorer each, by one Restorer, and by one FileRestorer; oracle: bytes identical to the input (also when the same tree is printed a second time, by a Restorer whose FileSet already holds a file) whenever the plain (no import management) round trip of that input is, and re-decorating the output yields the same (name, path) sequence; " +
 			"state = (canonical text, resolver pair); non-trivial = file in which at least one identifier carries a path",
 		Assumptions: []string{"dependency packages are the synthetic typed world (fmt, io, os, bytes, a.b/x, c.d/x, e.f/y-go)"},
 		Units: func(tier string) []string {
@@ -69,14 +71,16 @@ func init() {
 				a := importTemplates()[unit-n]
 				for _, b := range importTemplates() {
 					for _, dec := range []string{"goast-map", "goast-guess"} {
-						cs := c08Case{Src: a.Src, Src2: b.Src, Dec: dec, Res: "simple"}
-						o, applicable := c08Shared(cs)
-						if !applicable {
-							continue
+						for _, reuse := range []string{"", "restorer", "filerestorer"} {
+							cs := c08Case{Src: a.Src, Src2: b.Src, Dec: dec, Res: "simple", Reuse: reuse}
+							o, applicable := c08Shared(cs)
+							if !applicable {
+								continue
+							}
+							ctx.State("shared|"+a.Name+"|"+b.Name+"|"+dec+"|"+reuse, true)
+							ctx.R.Transitions++
+							ctx.Eval(cs, o)
 						}
-						ctx.State("shared|"+a.Name+"|"+b.Name+"|"+dec, true)
-						ctx.R.Transitions++
-						ctx.Eval(cs, o)
 					}
 				}
 				return
@@ -145,6 +149,8 @@ func c08Shared(cs c08Case) (core.Outcome, bool) {
 	} else {
 		shared = goast.WithResolver(simple.New(stdNames))
 	}
+	oneRestorer := decorator.NewRestorerWithImports(localPath, simple.New(stdNames))
+	oneFileRestorer := decorator.NewRestorerWithImports(localPath, simple.New(stdNames)).FileRestorer()
 	for i, src := range []string{cs.Src, cs.Src2} {
 		if strings.Contains(src, "import \"C\"") {
 			continue
@@ -162,11 +168,25 @@ func c08Shared(cs c08Case) (core.Outcome, bool) {
 			return fail("shared-resolver-error", "file %d: %v", i+1, err)
 		}
 		var buf bytes.Buffer
-		if err := decorator.NewRestorerWithImports(localPath, simple.New(stdNames)).Fprint(&buf, df); err != nil {
-			return fail("shared-resolver-restore-error", "file %d: %v", i+1, err)
+		var rerr error
+		if p := guard(func() {
+			switch cs.Reuse {
+			case "restorer":
+				rerr = oneRestorer.Fprint(&buf, df)
+			case "filerestorer":
+				oneFileRestorer.Name = fmt.Sprintf("f%d.go", i)
+				rerr = oneFileRestorer.Fprint(&buf, df)
+			default:
+				rerr = decorator.NewRestorerWithImports(localPath, simple.New(stdNames)).Fprint(&buf, df)
+			}
+		}); p != "" {
+			return fail("pair-restore-panic:"+cs.Reuse, "file %d: %s", i+1, p)
+		}
+		if rerr != nil {
+			return fail("shared-resolver-restore-error", "file %d: %v", i+1, rerr)
 		}
 		if buf.String() != src {
-			return fail("shared-resolver-bytes-differ", "file %d decorated with a resolver that another decorator used before does not round-trip\n%s", i+1, diffDesc(src, buf.String()))
+			return fail("pair-bytes-differ:"+cs.Reuse, "file %d (decorator resolver shared with another decorator; restorer reuse %q) does not round-trip\n%s", i+1, cs.Reuse, diffDesc(src, buf.String()))
 		}
 	}
 	return core.Outcome{OK: true}, true
